@@ -76,6 +76,7 @@ func init() {
 		"   shape of the run path of package compose (runner.run / initTaskManager / initChannelManager); the\n   model's own tables are re-exported. *)\n"+
 		"From Eino Require Import Base.Util Model.IsolationEffects.\n\n"+
 		"Definition tie_available : bool := false.\n"+
+		"Definition run_path_effects_named : list (string * effect) := map (fun e => (\"\"%string, e)) expected_effects.\n"+
 		"Definition run_path_effects : list effect := expected_effects.\n"+
 		"Definition task_manager_alloc : list (string * eclass) := expected_task_manager_alloc.\n"+
 		"Definition channel_manager_alloc : list (string * eclass) := expected_channel_manager_alloc.\n")
@@ -145,6 +146,21 @@ func (f *c09Func) name() string {
 }
 
 type c09Effect struct{ fn, kind, class, path string }
+
+// The table that is compared carries, instead of the function's name, the SCOPE of the effect: the package and
+// whether the code is a run-time closure of a constructor.  Renaming a private function, or moving a statement
+// from one function to another, leaves it unchanged; the names are listed beside it for the reader (and for the
+// error message of a broken agreement).
+func (e c09Effect) scope() string {
+	pkg, fn := "compose", e.fn
+	if i := strings.Index(fn, ":"); i >= 0 {
+		pkg, fn = fn[:i], fn[i+1:]
+	}
+	if strings.HasSuffix(fn, "$closure") {
+		return pkg + "$closure"
+	}
+	return pkg
+}
 
 type c09Pkg struct {
 	prefix      string                // "" for compose, "react:" / "host:" …
@@ -312,6 +328,7 @@ type c09ParamWrite struct {
 	kind   string
 	class  c09Class // class by the parameter's type (c09Param: builtin / foreign element type; c09Shared: a type of the package)
 	suffix string
+	pre    string // kind "link": the field that is made to refer to (part of) the parameter's object, "T.f <- "
 }
 
 // splits "param#3([]string)[].x" into (3, "param([]string)", "[].x"); idx < 0 when the path is not rooted at a parameter
@@ -384,6 +401,17 @@ func c09ContainerLevel(kind, suffix string) bool {
 }
 
 func (s *c09Scope) effect(kind string, class c09Class, path string) {
+	if kind == "link" && s.suffix == "" {
+		// a per-run object made to refer to what a parameter refers to: to what the caller hands over
+		if i := strings.Index(path, " <- "); i >= 0 {
+			if idx, _, suffix := c09ParamRoot(path[i+4:]); idx >= 0 && idx < len(s.pshape) {
+				s.p.addParamWrite(s.fn.name(), c09ParamWrite{idx, kind, class, suffix, path[:i+4]})
+				if !s.p.rootFuncs[s.fn.name()] {
+					return
+				}
+			}
+		}
+	}
 	if c09IsStoreKind(kind) && s.suffix == "" {
 		if idx, _, suffix := c09ParamRoot(path); idx >= 0 && idx < len(s.pshape) {
 			// provenance decides for a store into the parameter's OWN container (a slot of the slice / map, the
@@ -391,7 +419,7 @@ func (s *c09Scope) effect(kind string, class c09Class, path string) {
 			// store THROUGH an element is not decided by where the container comes from (a slice the caller
 			// made may hold values that outlive the run): it stays what the parameter's type says, reported here.
 			if c09ContainerLevel(kind, suffix) && (class == c09Param || (class == c09Shared && s.pshape[idx])) {
-				s.p.addParamWrite(s.fn.name(), c09ParamWrite{idx, kind, class, suffix})
+				s.p.addParamWrite(s.fn.name(), c09ParamWrite{idx, kind, class, suffix, ""})
 				if !s.p.rootFuncs[s.fn.name()] {
 					return // reported where the written object comes from (sharedArgs)
 				}
@@ -679,7 +707,7 @@ func (s *c09Scope) sharedArgs(callee *c09Func, x *ast.CallExpr) {
 			if !spread { // one element of the variadic parameter
 				suffix = strings.TrimPrefix(suffix, "[]")
 			}
-			s.effect(w.kind, c, o+suffix)
+			s.effect(w.kind, c, w.pre+o+suffix)
 		}
 	}
 }
@@ -1148,6 +1176,31 @@ func (p *c09Pkg) analyseClosures(f *c09Func) {
 	}
 }
 
+// the one analysed (run-path) function or method whose first result is a *T
+func (p *c09Pkg) returning(typ string) *c09Func {
+	var found []*c09Func
+	each := func(f *c09Func) {
+		if !p.analysed[f.name()] || f.decl.Type.Results == nil || len(f.decl.Type.Results.List) == 0 {
+			return
+		}
+		if st, ok := f.decl.Type.Results.List[0].Type.(*ast.StarExpr); ok {
+			if id, ok := st.X.(*ast.Ident); ok && id.Name == typ {
+				found = append(found, f)
+			}
+		}
+	}
+	for _, f := range p.funcs {
+		each(f)
+	}
+	for _, f := range p.methods {
+		each(f)
+	}
+	if len(found) != 1 {
+		return nil
+	}
+	return found[0]
+}
+
 // where the manager returned by fn comes from, field by field
 func (p *c09Pkg) allocOf(f *c09Func) ([][2]string, error) {
 	if f == nil {
@@ -1269,13 +1322,14 @@ func c09ExtractEffects(repo string) (string, string, error) {
 	if err := p.run([]string{"runner.run", "runner.invoke", "runner.transform"}); err != nil {
 		return "", "", err
 	}
-	tm, err := p.allocOf(p.methods["runner.initTaskManager"])
+	// the constructors of the two per-run managers, whatever they are called: the analysed functions that return one
+	tm, err := p.allocOf(p.returning("taskManager"))
 	if err != nil {
-		return "", "", fmt.Errorf("initTaskManager: %v", err)
+		return "", "", fmt.Errorf("constructor of the task manager: %v", err)
 	}
-	cm, err := p.allocOf(p.methods["runner.initChannelManager"])
+	cm, err := p.allocOf(p.returning("channelManager"))
 	if err != nil {
-		return "", "", fmt.Errorf("initChannelManager: %v", err)
+		return "", "", fmt.Errorf("constructor of the channel manager: %v", err)
 	}
 	// the bundled agents: built once, closures run per call (flow/agent/react, flow/agent/multiagent/host)
 	react, err := c09Load(repo, "flow/agent/react", "react:", map[string]bool{"state": true}, nil)
@@ -1316,19 +1370,44 @@ func c09ExtractEffects(repo string) (string, string, error) {
 			p.analysed[q.prefix+n] = true
 		}
 	}
+	// a mention of a package-level variable and a link are not stores: one row per scope however many functions
+	// have it (the functions are listed in the name column)
 	var effs []c09Effect
+	merged := map[c09Effect][]string{}
 	for e := range p.effects {
-		effs = append(effs, e)
+		if c09IsStoreKind(e.kind) {
+			effs = append(effs, e)
+			continue
+		}
+		k := c09Effect{e.scope(), e.kind, e.class, e.path}
+		merged[k] = append(merged[k], e.fn)
+	}
+	for k, fns := range merged {
+		sort.Strings(fns)
+		pre := ""
+		if !strings.HasSuffix(k.fn, "$closure") && k.fn != "compose" {
+			pre = k.fn + ":" // scope() reads the package off the first name
+			for i := range fns {
+				fns[i] = strings.TrimPrefix(fns[i], pre)
+			}
+		}
+		effs = append(effs, c09Effect{pre + strings.Join(fns, ", "), k.kind, k.class, k.path})
 	}
 	sort.Slice(effs, func(i, j int) bool {
 		a, b := effs[i], effs[j]
-		if a.fn != b.fn {
-			return a.fn < b.fn
+		if a.scope() != b.scope() {
+			return a.scope() < b.scope()
 		}
 		if a.kind != b.kind {
 			return a.kind < b.kind
 		}
-		return a.path < b.path
+		if a.path != b.path {
+			return a.path < b.path
+		}
+		if a.class != b.class {
+			return a.class < b.class
+		}
+		return a.fn < b.fn
 	})
 	var fns []string
 	for n := range p.analysed {
@@ -1343,15 +1422,17 @@ func c09ExtractEffects(repo string) (string, string, error) {
 	b.WriteString("   Functions analysed (" + fmt.Sprint(len(fns)) + "): " + strings.Join(fns, ", ") + " *)\n")
 	b.WriteString("From Eino Require Import Base.Util Model.IsolationEffects.\n\n")
 	b.WriteString("Definition tie_available : bool := true.\n\n")
-	b.WriteString("Definition run_path_effects : list effect := [\n")
+	b.WriteString("(* (function in which the effect was found, the effect: scope, kind, class of the root, path) *)\n")
+	b.WriteString("Definition run_path_effects_named : list (string * effect) := [\n")
 	for i, e := range effs {
 		sep := ";"
 		if i == len(effs)-1 {
 			sep = ""
 		}
-		fmt.Fprintf(&b, "  Eff %s %s %s %s%s\n", c09Str(e.fn), c09Str(e.kind), e.class, c09Str(e.path), sep)
+		fmt.Fprintf(&b, "  (%s, Eff %s %s %s %s)%s\n", c09Str(e.fn), c09Str(e.scope()), c09Str(e.kind), e.class, c09Str(e.path), sep)
 	}
 	b.WriteString("].\n\n")
+	b.WriteString("Definition run_path_effects : list effect := map snd run_path_effects_named.\n\n")
 	tab := func(name string, rows [][2]string) {
 		b.WriteString("Definition " + name + " : list (string * eclass) := [\n")
 		for i, r := range rows {
